@@ -168,6 +168,15 @@ theorem C12_scanFile_lexemes_inside_file (data : Array UInt8) (lenAt : BodyKind 
     (h : l ∈ (scanFile data lenAt).1) : 0 ≤ l.b ∧ l.b ≤ l.e + 1 ∧ l.e < data.size :=
   C12_lexemes_inside_file (mkEnv data lenAt) _ _ l h
 
+/-- **C12 (summary), every file, every oracle**: the lexemes the scanner reports for a file are pairwise
+    disjoint slices of that file, in the order of the text: every lexeme satisfies `0 ≤ b ≤ e + 1 ≤ |file|`,
+    and for any two of them the earlier one ends before the later one begins. -/
+theorem C12_scanFile_lexemes_disjoint_slices (data : Array UInt8) (lenAt : BodyKind → Nat → LenAnswer) :
+    (scanFile data lenAt).1.Pairwise (fun a b => a.e < b.b) ∧
+    ∀ l ∈ (scanFile data lenAt).1, 0 ≤ l.b ∧ l.b ≤ l.e + 1 ∧ l.e < data.size :=
+  ⟨(orderedFrom_pairwise (-1) _ (C12_scanFile_lexemes_in_text_order data lenAt)).1,
+   fun l hl => C12_scanFile_lexemes_inside_file data lenAt l hl⟩
+
 /-- non-vacuity: the faults excluded are the ones the model can name, and other faults are not excluded -/
 example : StackFault (.panic "stepStack.Pop: Reading from empty stack") := Or.inl rfl
 example : StackFault (.err (.basic mismatchMsg) 3) := rfl
